@@ -287,6 +287,22 @@ def run_path_enum(desc):
         sw = A.render_path(pp._replace(segs=tuple(swap_lits(x) for x in segs)))
         for j in (0, 1, 2, 3, 4, 5, 6, 8, 12, 15):
             check_relations('gl', pp, text, FLAGSETS[j], names, out, 'path-enum', as_bytes=(idx + j) % 5 == 0, swapped_text=sw)
+        if len(segs) >= 2 and idx % 3 == 1:
+            # the same pattern with every separator doubled (and tripled): runs of separators mean one, under either convention
+            for dup in (2, 3):
+                pp2 = pp._replace(dup=dup)
+                text2 = A.render_path(pp2)
+                sw2 = A.render_path(pp2._replace(segs=tuple(swap_lits(x) for x in segs)))
+                for j in (0, 1, 2, 4, 8, 12):
+                    check_relations('gl', pp2, text2, FLAGSETS[j], names, out, 'path-enum-dup', as_bytes=(idx + j) % 5 == 0, swapped_text=sw2)
+                fl = flagval('gl', ['FORCEWIN'])
+                a = accepted('gl', text, names, fl)
+                b = accepted('gl', text2, names, fl)
+                out.evaluations += len(names)
+                if a != b:
+                    d = sorted(a ^ b)[0]
+                    out.violation({'mode': 'gl', 'pattern': text, 'doubled_separator_form': text2, 'flags': ['FORCEWIN'], 'name': d,
+                                   'relation': 'a run of separators in the pattern means one separator'}, bucket=('R5d',))
         # `\\` in the pattern is a separator under FORCEWIN
         if len(segs) >= 2:
             bs = text.replace('/', '\\\\')
